@@ -140,6 +140,8 @@ pub struct World {
     pub alive: std::collections::BTreeSet<u32>,
     pub produced: i64,
     pub mute: bool,
+    /// children the environment has completed (oneshot-like): they answer Ready at their next poll
+    pub ready: std::collections::BTreeSet<u32>,
 }
 
 pub static WORLD: Mutex<Option<World>> = Mutex::new(None);
@@ -180,6 +182,7 @@ pub fn reset_world(hooklog: bool) {
         alive: Default::default(),
         produced: 0,
         mute: false,
+        ready: Default::default(),
     });
     SEQ.store(0, Ordering::SeqCst);
     TW_CLONES.store(0, Ordering::SeqCst);
@@ -233,10 +236,20 @@ pub fn install_hook() {
 }
 fn hook(kind: u32, a: usize, b: usize, c: usize) {
     let _s = Suspend::new();
-    crate::gate::sync_hook(kind, a, b, c);
+    // log first (the event has just happened), then park at the gate
+    let key = hook_log(kind, a, b, c);
+    crate::gate::sync(&format!("H{}:{}", kind, key));
+}
+/// records the event; returns the slot key the event is about (0 if none)
+fn hook_log(kind: u32, a: usize, b: usize, c: usize) -> i64 {
     let mut g = WORLD.lock().unwrap_or_else(|e| e.into_inner());
-    let Some(w) = g.as_mut() else { return };
+    let Some(w) = g.as_mut() else { return 0 };
     use futures_buffered::verif::kind as K;
+    let lockkey = match kind {
+        K::WAKE_LOCK | K::WAKE_SWAPPED | K::WAKE_ENQUEUED | K::WAKE_NOTIFIED | K::WAKE_DONE => w.key_of(a),
+        K::PUSH_LOCK | K::PUSH_SWAPPED | K::PUSH_ENQUEUED | K::POP_SLOT | K::POP_CLEARED => w.block_of(a) * 100000 + b as i64,
+        _ => 0,
+    };
     match kind {
         K::BLOCK_ALLOC => {
             w.nblocks += 1;
@@ -262,7 +275,7 @@ fn hook(kind: u32, a: usize, b: usize, c: usize) {
                 bl.base = usize::MAX - bl.id as usize * 4096;
             }
             if w.hooklog {
-                w.log.push(format!(r#"{{"e":"bfree","b":{},"ok":{}}}"#, id, ok));
+                w.log.push(format!(r#"{{"e":"bfree","b":{},"ok":{},"t":{}}}"#, id, ok, crate::gate::me()));
             }
         }
         K::VT_CLONE | K::VT_WAKE | K::VT_WAKE_BY_REF | K::VT_DROP => {
@@ -366,6 +379,7 @@ fn hook(kind: u32, a: usize, b: usize, c: usize) {
         }
         _ => {}
     }
+    lockkey
 }
 
 // ------------------------------------------------------------------ tokens
@@ -421,8 +435,9 @@ impl std::fmt::Debug for Token {
 static TW_VTABLE: RawWakerVTable = RawWakerVTable::new(tw_clone, tw_wake, tw_wake_by_ref, tw_drop);
 unsafe fn tw_clone(p: *const ()) -> RawWaker {
     let _s = Suspend::new();
-    crate::gate::sync_cb("tw.clone");
     TW_CLONES.fetch_add(1, Ordering::SeqCst);
+    log_tw("twc", p as usize);
+    crate::gate::sync_cb("tw.clone");
     RawWaker::new(p, &TW_VTABLE)
 }
 unsafe fn tw_wake(p: *const ()) {
@@ -431,13 +446,26 @@ unsafe fn tw_wake(p: *const ()) {
 }
 unsafe fn tw_wake_by_ref(p: *const ()) {
     let _s = Suspend::new();
-    crate::gate::sync_cb("tw.wake");
     ev(format!(r#"{{"e":"tw","w":{},"t":{}}}"#, p as usize, crate::gate::me()));
+    crate::gate::sync_cb("tw.wake");
 }
 unsafe fn tw_drop(_p: *const ()) {
     let _s = Suspend::new();
-    crate::gate::sync_cb("tw.drop");
     TW_DROPS.fetch_add(1, Ordering::SeqCst);
+    log_tw("twd", _p as usize);
+    crate::gate::sync_cb("tw.drop");
+}
+/// task waker cloned / destroyed while control is inside the crate (probe for C03)
+fn log_tw(what: &str, w: usize) {
+    if IN_CRATE.with(|c| c.get()) == 0 {
+        return;
+    }
+    let mut g = WORLD.lock().unwrap_or_else(|e| e.into_inner());
+    if let Some(x) = g.as_mut() {
+        if x.hooklog {
+            x.log.push(format!(r#"{{"e":"{}","w":{},"t":{}}}"#, what, w, crate::gate::me()));
+        }
+    }
 }
 /// the task waker number `w` (>= 1). No allocation; distinct numbers are distinct for `will_wake`.
 pub fn task_waker(w: u32) -> Waker {
